@@ -4,6 +4,9 @@
    about is compared: what each Get returned (which build, Err afterwards), every builder call
    with the bytes it received and in which order per updater, every Close call per value, the
    outcome of NewUpdater, whether a lookup request was sent, and the names a poll requested.
+   Late flights (F8): a caller that passed the unknown-name check and is held in the window before the
+   flight (TLateBegin), the flight's locked part when it is released (TLate / TLateNew, replayed as
+   Updater.ELate = Store.lookup_finish), and what the store serves for a name (TRead).
    No proofs here. *)
 From Coq Require Import List Bool NArith ZArith.
 Import ListNotations.
@@ -14,15 +17,26 @@ Definition V := N.
 (* what the harness saw, flattened in the order it happened *)
 Inductive titem :=
 | TSnap                                             (* a Refresh has taken its snapshot and is blocked at the service *)
-| TPoll (ans : list (name * resp V)) (ok : bool)    (* ... the service answered; the poll finished (ok = no error) *)
-| TRefresh (ans : list (name * resp V)) (ok : bool) (* a whole Refresh *)
+| TPoll (ans : list (name * N * resp V)) (ok : bool)    (* ... the service answered; the poll finished (ok = no error) *)
+| TRefresh (ans : list (name * N * resp V)) (ok : bool) (* a whole Refresh; ans: name, the version the client said it has, the answer *)
 | TNew (n : name) (closer : bool) (look : option (option (N * V)))
        (* NewUpdater called; look: None = no request sent, Some None = request failed, Some (Some (v,b)) = answered *)
 | TNewDone (ok : bool)                              (* NewUpdater returned *)
 | TGet (i : nat)                                    (* Get called on updater i *)
 | TBuilt (i : nat) (ok : bool)                      (* the builder of updater i returned *)
 | TGot (i : nat) (k : nat) (err : bool)             (* Get returned the value of build k; Err() afterwards *)
-| TErr (i : nat) (err : bool).
+| TErr (i : nat) (err : bool)
+| TLook (n : name) (look : option (option (N * V))) (ok : bool)
+       (* LookupSecret(n) by an undisturbed caller; look as for TNew; ok = a handle was returned *)
+| TLateBegin (n : name)
+       (* a caller of LookupSecret / NewUpdater found n unknown with lookups allowed and is held in the
+          window before it joins or starts a flight *)
+| TLate (n : name) (look : option (option (N * V))) (ok : bool)
+       (* the held LookupSecret caller was released and returned; look = None: it sent no request *)
+| TLateNew (n : name) (closer : bool) (look : option (option (N * V)))
+       (* the held NewUpdater caller was released: flight, then registration and first read *)
+| TRead (n : name) (tok : option V).
+       (* Store.Secret(n): None = nil / panic, Some b = the bytes the handle returned *)
 
 Inductive case :=
 | Case15 (allow : bool) (init : list (name * N * V)) (tr : list titem)
@@ -31,9 +45,9 @@ Inductive case :=
 Definition init_store (allow : bool) (init : list (name * N * V)) : store V :=
   ST (fold_left (fun mm '(n, v, b) => upd n (Some (CE v b 0%Z true)) mm) init []) [] [] allow 0%Z.
 
-Definition ans_fun (ans : list (name * resp V)) (n : name) (_ : N) : resp V :=
-  match List.find (fun '(n', _) => neqb n' n) ans with
-  | Some (_, r) => r
+Definition ans_fun (ans : list (name * N * resp V)) (n : name) (_ : N) : resp V :=
+  match List.find (fun '(n', _, _) => neqb n' n) ans with
+  | Some (_, _, r) => r
   | None => RErr
   end.
 
@@ -42,8 +56,10 @@ Record drv := D { ds : ustate V; dsnap : option (list (snap_entry)); dnew : opti
 
 Definition fail (d : drv) : drv := D (ds d) (dsnap d) (dnew d) false.
 
-Definition do_poll (d : drv) (snap : list snap_entry) (ans : list (name * resp V)) (ok : bool) : drv :=
-  if negb (list_beq bytes_beq (map fst (requests snap)) (map fst ans)) then fail d
+Definition req_beq (a b : name * N) : bool := bytes_beq (fst a) (fst b) && N.eqb (snd a) (snd b).
+(* the poll asks for exactly the names the model's snapshot has, each with the version the model's store holds *)
+Definition do_poll (d : drv) (snap : list snap_entry) (ans : list (name * N * resp V)) (ok : bool) : drv :=
+  if negb (list_beq req_beq (requests snap) (map fst ans)) then fail d
   else match poll snap (ans_fun ans) with
        | None => if ok then fail d else D (ds d) None (dnew d) (dok d)
        | Some ups => if ok then D (fst (step (ds d) (EApply ups))) None (dnew d) (dok d) else fail d
@@ -112,6 +128,45 @@ Definition titem_step (d : drv) (t : titem) : drv :=
       match step s (EErr i) with
       | (_, OErr e) => if Bool.eqb e err then d else fail d
       | _ => fail d
+      end
+  | TLook n look ok =>
+      let wants := negb (known (st s) n) && allow (st s) in
+      match look with
+      | None => if wants then fail d
+                else let '(s1, o) := step s (ELookup n 0%N 0%N 0%Z) in   (* known: handle; refused: error; no install *)
+                     if Bool.eqb (is_out_ok o) ok then D s1 (dsnap d) (dnew d) (dok d) else fail d
+      | Some None => if wants && negb ok then d else fail d
+      | Some (Some (v, b)) =>
+          if wants && ok then D (fst (step s (ELookup n v b 0%Z))) (dsnap d) (dnew d) (dok d) else fail d
+      end
+  | TLateBegin n => if negb (known (st s) n) && allow (st s) then d else fail d
+  | TLate n look ok =>
+      match look with
+      | None => (* no request although the caller had found the name unknown: only acceptable if the name
+                   is known by now (an implementation that re-checks); then it is the plain handle *)
+          if known (st s) n && ok then D (fst (step s (ELookup n 0%N 0%N 0%Z))) (dsnap d) (dnew d) (dok d) else fail d
+      | Some ans =>
+          let '(s1, o) := step s (ELate n ans 0%Z) in
+          if Bool.eqb (is_out_ok o) ok then D s1 (dsnap d) (dnew d) (dok d) else fail d
+      end
+  | TLateNew n cl look =>
+      let reg (s0 : ustate V) :=
+        let '(s1, o) := step s0 (EReg n cl) in
+        if is_out_ok o then let '(s2, o2) := step s1 (ERead (length (us s0)) 0%Z) in
+                            D s2 (dsnap d) (Some true) (dok d)
+        else fail d in
+      match look with
+      | None => if known (st s) n then reg s else fail d
+      | Some None => D s (dsnap d) (Some false) (dok d)
+      | Some (Some (v, b)) => reg (fst (step s (ELate n (Some (v, b)) 0%Z)))
+      end
+  | TRead n tok =>
+      match entry (st s) n, tok with
+      | Some e, Some b =>
+          if N.eqb (val e) b then D (US (fst (secret_locked (st s) n)) (us s) (Updater.blog s)) (dsnap d) (dnew d) (dok d)
+          else fail d
+      | None, None => d
+      | _, _ => fail d
       end
   end.
 
